@@ -7,7 +7,7 @@
 -/
 namespace BB.Callable
 
-inductive Ty | int | str | any | err | pint | sl | map | fn | ch | named | perr
+inductive Ty | int | str | any | err | pint | sl | map | fn | ch | named | perr | arr
 deriving DecidableEq, Repr
 
 def Ty.isIface : Ty → Bool
@@ -15,7 +15,7 @@ def Ty.isIface : Ty → Bool
   | _ => false
 
 def nilable : Ty → Bool
-  | .int | .str | .named => false
+  | .int | .str | .named | .arr => false   -- basic kinds, and arrays (`[2]int`): no nil value
   | _ => true
 
 /-- `reflect.Type.AssignableTo` on the universe (identical types; anything to `any`; the concrete
